@@ -160,6 +160,45 @@ func instantiateMode(w *World, assume []*Term, goal *Term, rich bool) ([]*Term, 
 		}
 		break
 	}
+	// existential goal over one integer: offer the integer results of the calls made on this path
+	// as witnesses (proving the disjunction of the instances proves the goal)
+	if goal.Op == "exists" && len(goal.Vars) == 1 && goal.Vars[0].Sort == w.IS {
+		wit := map[string]*Term{}
+		var order []string
+		var find func(t *Term)
+		seenW := map[string]bool{}
+		find = func(t *Term) {
+			if t.Op == "forall" || t.Op == "exists" {
+				return
+			}
+			if len(t.Args) == 0 {
+				if t.Sort == w.IS && strings.HasPrefix(t.Op, "r.") && !seenW[t.Op] {
+					seenW[t.Op] = true
+					wit[t.Op] = t
+					order = append(order, t.Op)
+				}
+				return
+			}
+			k := t.String()
+			if seenW[k] {
+				return
+			}
+			seenW[k] = true
+			for _, a := range t.Args {
+				find(a)
+			}
+		}
+		for _, a := range out {
+			find(a)
+		}
+		if len(order) > 0 && len(order) <= 8 {
+			var ds []*Term
+			for _, k := range order {
+				ds = append(ds, subst(goal.Args[0], map[string]*Term{goal.Vars[0].Op: wit[k]}))
+			}
+			goal = Or(ds...)
+		}
+	}
 	hasQ := false
 	for _, a := range out {
 		if a.Op == "forall" {
@@ -218,6 +257,17 @@ func instantiateMode(w *World, assume []*Term, goal *Term, rich bool) ([]*Term, 
 			out = append(out, matchInstances(ax, append(append([]*Term{}, out...), goal), 48)...)
 		}
 	}
+	// ground select applications, by array term: goal first, then the assumptions latest first
+	groundSel := map[string][]*Term{}
+	{
+		seenG := map[string]bool{}
+		collectGroundSelects(w, goal, groundSel, seenG)
+		for i := len(out) - 1; i >= 0; i-- {
+			if out[i].Op != "forall" {
+				collectGroundSelects(w, out[i], groundSel, seenG)
+			}
+		}
+	}
 	n := len(out)
 	for i := 0; i < n; i++ {
 		a := out[i]
@@ -241,6 +291,10 @@ func instantiateMode(w *World, assume []*Term, goal *Term, rich bool) ([]*Term, 
 				}
 				seenInst[c.String()] = true
 				out = append(out, subst(a.Args[0], map[string]*Term{a.Vars[0].Op: c}))
+			}
+			// trigger matching first: ground selects on the same array term as a select in the body
+			for _, c := range triggerInstances(w, a, groundSel, 16) {
+				add(c)
 			}
 			for _, c := range cl {
 				add(c)
@@ -404,4 +458,111 @@ func matchInstances(lemma *Term, ground []*Term, limit int) []*Term {
 	}
 	rec(0, map[string]*Term{})
 	return out
+}
+
+
+// collectGroundSelects records, per array term, the index terms of the ground select applications
+// in t (seeing through named abbreviations).
+func collectGroundSelects(w *World, t *Term, out map[string][]*Term, seen map[string]bool) {
+	if t.Op == "forall" || t.Op == "exists" {
+		return
+	}
+	if len(t.Args) == 0 {
+		if w != nil {
+			if d, ok := w.defs[t.Op]; ok && !seen["def:"+t.Op] && d.T != nil {
+				seen["def:"+t.Op] = true
+				collectGroundSelects(w, d.T, out, seen)
+			}
+		}
+		return
+	}
+	k := t.String()
+	if seen[k] {
+		return
+	}
+	seen[k] = true
+	if t.Op == "select" && len(t.Args) == 2 {
+		ak := t.Args[0].String()
+		if len(out[ak]) < 12 {
+			out[ak] = append(out[ak], t.Args[1])
+		}
+	}
+	for _, a := range t.Args {
+		collectGroundSelects(w, a, out, seen)
+	}
+}
+
+// stripOffset solves idx == off + r for r when off occurs syntactically as a summand of idx.
+func stripOffset(w *World, idx *Term, off string) (*Term, bool) {
+	if idx.String() == off {
+		return IntLit(0, idx.Sort), true
+	}
+	if idx.Op == "+" && len(idx.Args) == 2 {
+		if idx.Args[0].String() == off {
+			return idx.Args[1], true
+		}
+		if idx.Args[1].String() == off {
+			return idx.Args[0], true
+		}
+		if r, ok := stripOffset(w, idx.Args[0], off); ok {
+			return w.Add(r, idx.Args[1]), true
+		}
+		if r, ok := stripOffset(w, idx.Args[1], off); ok {
+			return w.Add(idx.Args[0], r), true
+		}
+	}
+	return nil, false
+}
+
+// triggerInstances: for a one-variable forall, the values of the variable that make one of the
+// select applications in its body coincide with a ground select application on the same array.
+func triggerInstances(w *World, a *Term, ground map[string][]*Term, limit int) []*Term {
+	v := a.Vars[0].Op
+	var res []*Term
+	have := map[string]bool{}
+	var walk func(t *Term)
+	walk = func(t *Term) {
+		if len(res) >= limit || t.Op == "forall" || t.Op == "exists" {
+			return
+		}
+		if t.Op == "select" && len(t.Args) == 2 && !strings.Contains(t.Args[0].String(), v) {
+			idx := t.Args[1]
+			var off *Term
+			match := false
+			if len(idx.Args) == 0 && idx.Op == v {
+				match = true
+			} else if idx.Op == "+" && len(idx.Args) == 2 {
+				x, y := idx.Args[0], idx.Args[1]
+				if len(y.Args) == 0 && y.Op == v && !strings.Contains(x.String(), v) {
+					match, off = true, x
+				} else if len(x.Args) == 0 && x.Op == v && !strings.Contains(y.String(), v) {
+					match, off = true, y
+				}
+			}
+			if match {
+				for _, g := range ground[t.Args[0].String()] {
+					if g.Sort != a.Vars[0].Sort || len(res) >= limit {
+						continue
+					}
+					c := g
+					if off != nil {
+						if r, ok := stripOffset(w, g, off.String()); ok {
+							c = r
+						} else {
+							c = w.Sub(g, off)
+						}
+					}
+					if !have[c.String()] {
+						have[c.String()] = true
+						res = append(res, c)
+					}
+				}
+			}
+		}
+		for _, c := range t.Args {
+			walk(c)
+		}
+	}
+	walk(a.Args[0])
+	return res
 }
